@@ -390,6 +390,7 @@ func renderVar(sc *varScen, pkg string) string {
 	fmt.Fprintf(&b, "func eff() int32 { println(%s, \"init\"); return 1 }\n", tag)
 	fmt.Fprintf(&b, "func eff2() (int32, int32) { println(%s, \"init\"); return 1, 2 }\n", tag)
 	fmt.Fprintf(&b, "type tv struct{ f int32 }\nfunc (t tv) get() int32 { println(%s, \"init\"); return t.f }\n", tag)
+	b.WriteString("type fnT func() int32\n\nvar fv fnT = eff\n")
 	b.WriteString("func mkch() chan int32 { c := make(chan int32, 1); c <- 5; return c }\n")
 	b.WriteString("var ch = mkch()\n")
 	b.WriteString("var ifc interface{} = \"str\"\n")
@@ -412,6 +413,8 @@ func renderVar(sc *varScen, pkg string) string {
 		expr = "<-ch"
 	case "convcall":
 		expr = "int64(eff())"
+	case "namedfunccall":
+		expr = "fv()"
 	case "assertpanic":
 		expr = "ifc.(int32)"
 	case "indexpanic":
